@@ -80,20 +80,22 @@ def max_len(v, seen=None):
 
 
 def fingerprint(v, seen=None, depth=0):
-    """structural fingerprint with element identities of containers (order-sensitive); cycle-safe"""
+    """structural fingerprint with element identities of containers (order-sensitive); cycle-safe.
+    list/tuple/dict subclasses (e.g. a host defaultdict) are walked like their base types."""
     if seen is None:
         seen = {}
     t = type(v)
-    if t is list or t is tuple:
+    if isinstance(v, (list, tuple)):
         if id(v) in seen:
             return ('cycle', seen[id(v)])
         seen[id(v)] = len(seen)
-        return (t.__name__, id(v), tuple(fingerprint(x, seen, depth + 1) for x in v))
-    if t is dict:
+        return ('list' if isinstance(v, list) else 'tuple', id(v), tuple(fingerprint(x, seen, depth + 1) for x in v))
+    if isinstance(v, dict):
         if id(v) in seen:
             return ('cycle', seen[id(v)])
         seen[id(v)] = len(seen)
-        return ('dict', id(v), tuple((k if isinstance(k, (str, int, float, bool, type(None))) else repr(k), fingerprint(x, seen, depth + 1)) for k, x in v.items()))
+        return ('dict', id(v), tuple((k if isinstance(k, (str, int, float, bool, type(None))) else repr(k), fingerprint(x, seen, depth + 1))
+                                     for k, x in list(dict.items(v))))
     if isinstance(v, Decimal):
         return ('Decimal', str(v))
     if t in PLAIN_SCALARS:
